@@ -127,7 +127,7 @@ class PathState:
 
 class Exec:
     def __init__(self, f, call_handler, havoc=None, word_args=(), unroll=False, arg_consts=None, int_cells=None, auto=False,
-                 split_max=8, starts=None, pre_conds=(), callee_writes=None, word_phis=None, fresh_per_entry=False, exit_eq=None):
+                 split_max=8, starts=None, pre_conds=(), callee_writes=None, word_phis=None, fresh_per_entry=False, exit_eq=None, unrotate=False):
         """call_handler(ex, path, inst, callee, argvalues) -> result value or None
         havoc(ex, path, header) is called when a fresh iteration starts at a loop header"""
         self.f = f
@@ -149,6 +149,141 @@ class Exec:
         self.fresh_per_entry = fresh_per_entry
         self.exit_eq = exit_eq or {}      # header block -> (phi inst id, Lf): value of that induction variable when the loop is left through its header test
         self.callee_writes = callee_writes or {}   # callee -> {arg index: (offset, nbytes)} it may write (else: whole object)
+        # guarded bottom-tested loops ("if (n >= 4) do { ... } while (n >= 4);") summarised as the top-tested loop they are equivalent to:
+        # guard block -> description, latch block -> description (see _find_rotated)
+        self.rot_guard, self.rot_latch = {}, {}
+        if unrotate:
+            for L in f.loops:
+                r = self._find_rotated(L)
+                if r:
+                    self.rot_guard[r["G"]] = r
+                    self.rot_latch[r["T"]] = r
+        self.rot_heads = {r["H"] for r in self.rot_guard.values()}
+
+    def _find_rotated(self, L):
+        """L is `G: if (c(init)) { H: do { body } T: while (c(next)); } X:` with the same test c in the guard G and in the latch T, the values merged
+        at H being (init from G, next from T) and every value merged at X being such a pair (or loop-invariant).  Then executing the test
+        at T on the merged values first and the body after it is the same program.  Returns the description or None (any doubt: None)."""
+        f = self.f
+        H = L["header"]
+        lat = list(L.get("latches", []))
+        if len(lat) != 1 or list(L.get("exiting", [])) != lat:
+            return None
+        T = lat[0]
+        tt = f.term(T)
+        if tt.op != "br" or not tt.get("cond") or H not in tt.get("succ"):
+            return None
+        su = tt.get("succ")
+        X = su[1] if su[0] == H else su[0]
+        if X in L["blocks"] or su[0] == su[1]:
+            return None
+        t_true_in = su[0] == H
+        # the exit edge may pass through blocks that only jump before it meets the path that skipped the loop
+        predXT = T
+        for _n in range(3):
+            blk = f.blocks[X]
+            real = [i for i in blk.insts if not (f.insts[i].is_dbg() or f.insts[i].is_lifetime() or f.insts[i].op == "br")]
+            t_ = f.term(X)
+            if real or t_.op != "br" or t_.get("cond") or len(blk.preds) != 1:
+                break
+            predXT, X = X, t_.get("succ")[0]
+
+        def strip(v):
+            I = f.inst(v)
+            while I is not None and I.op in ("zext", "sext", "trunc", "bitcast", "freeze"):
+                v = tuple(I.ops[0])
+                I = f.inst(v)
+            return tuple(v)
+        # the latch holds nothing but the test
+        for iid in f.blocks[T].insts:
+            I = f.insts[iid]
+            if I.op in ("icmp", "zext", "sext", "trunc", "br") or I.is_dbg() or I.is_lifetime():
+                continue
+            return None
+        Ct = f.inst(strip(tt.ops[0]))
+        if Ct is None or Ct.op != "icmp" or Ct.b != T or Ct.ops[1][0] != "c":
+            return None
+
+        def skip_empty_back(b):
+            """walk back from b through blocks that only jump"""
+            n = 0
+            while n < 3:
+                blk = f.blocks[b]
+                real = [i for i in blk.insts if not (f.insts[i].is_dbg() or f.insts[i].is_lifetime() or f.insts[i].op == "br")]
+                t = f.term(b)
+                if real or t.op != "br" or t.get("cond") or len(blk.preds) != 1:
+                    return b
+                b = blk.preds[0]
+                n += 1
+            return b
+        outs = [p_ for p_ in f.blocks[H].preds if p_ not in L["blocks"]]
+        if len(outs) != 1:
+            return None
+        P = outs[0]
+        G = skip_empty_back(P) if (f.term(P).op == "br" and not f.term(P).get("cond")) else P
+        tg = f.term(G)
+        if tg.op != "br" or not tg.get("cond"):
+            return None
+
+        def leads(b, target, via):
+            """does the edge G->b lead to target through empty jump-only blocks? collects the last block before target"""
+            n = 0
+            prev = G
+            while b != target and n < 3:
+                blk = f.blocks[b]
+                real = [i for i in blk.insts if not (f.insts[i].is_dbg() or f.insts[i].is_lifetime() or f.insts[i].op == "br")]
+                t = f.term(b)
+                if real or t.op != "br" or t.get("cond") or len(blk.preds) != 1:
+                    return None
+                prev, b = b, t.get("succ")[0]
+                n += 1
+            return prev if b == target else None
+        sg = tg.get("succ")
+        if sg[0] == sg[1]:
+            return None
+        pH0, pX1 = leads(sg[0], H, None), leads(sg[1], X, None)
+        pH1, pX0 = leads(sg[1], H, None), leads(sg[0], X, None)
+        if pH0 is not None and pX1 is not None:
+            g_true_in, predH, predX = True, pH0, pX1
+        elif pH1 is not None and pX0 is not None:
+            g_true_in, predH, predX = False, pH1, pX0
+        else:
+            return None
+        if predH != P or g_true_in != t_true_in:
+            return None
+        Cg = f.inst(strip(tg.ops[0]))
+        if Cg is None or Cg.op != "icmp" or Cg.get("pred") != Ct.get("pred") or Cg.ops[1][0] != "c" or int(Cg.ops[1][1]) != int(Ct.ops[1][1]) or Cg.bits != Ct.bits:
+            return None
+        # merged values at H: (init, next) pairs
+        pairs = {}
+        for iid in f.blocks[H].insts:
+            I = f.insts[iid]
+            if I.op != "phi":
+                break
+            ini = [tuple(x[0]) for x in I.get("inc") if x[1] == P]
+            nxt = [tuple(x[0]) for x in I.get("inc") if x[1] == T]
+            if len(ini) != 1 or len(nxt) != 1 or len(I.get("inc")) != 2:
+                return None
+            pairs[I.id] = (ini[0], nxt[0])
+        # the test is on such a pair
+        if not any(strip(Cg.ops[0]) == strip(a) and strip(Ct.ops[0]) == strip(b_) for (a, b_) in pairs.values()):
+            return None
+        # values merged behind the loop: the same pairs (or the same value on both sides); nothing else flows into X
+        if sorted(f.blocks[X].preds) != sorted([predX, predXT]):
+            return None
+        for iid in f.blocks[X].insts:
+            I = f.insts[iid]
+            if I.op != "phi":
+                break
+            a = [tuple(x[0]) for x in I.get("inc") if x[1] == predX]
+            b_ = [tuple(x[0]) for x in I.get("inc") if x[1] == predXT]
+            if len(a) != 1 or len(b_) != 1:
+                return None
+            if a[0] != b_[0] and not any(a[0] == pa and b_[0] == pb for (pa, pb) in pairs.values()):
+                return None
+        # values defined in the loop and used behind it other than through these merges would have no counterpart for the skipped loop: SSA
+        # makes such a use impossible without a phi at X (X is reached around the loop), so nothing more to check
+        return {"G": G, "H": H, "T": T, "X": X, "P": P, "pairs": pairs, "loop": L}
 
     # -- value helpers ---------------------------------------------------------
     def val(self, p, v):
@@ -341,9 +476,17 @@ class Exec:
 
     def _run_path(self, b, pred, p, work, started_heads):
         f = self.f
-        origin = b if (pred == "fresh") else None
-        if pred == "fresh":
-            p.origin = b
+        rot_start = isinstance(pred, tuple) and pred and pred[0] == "rot"
+        if rot_start:
+            # generic iteration of an un-rotated loop: it starts at the latch test with the merged values, attributed to the head pred[1]
+            p.origin = pred[1]
+            p.blocks.append(pred[1])
+            pred = "fresh"
+            origin = p.origin
+        else:
+            origin = b if (pred == "fresh") else None
+            if pred == "fresh":
+                p.origin = b
         # the head a generic iteration started from stays with the path through forks (branches, selects, residue splits): back at
         # that head a forked path is continued only when the test is decided to LEAVE the loop (a class of the last iteration);
         # decided to stay, it ends like any generic iteration - following it would iterate without end (n > 32, n - 32 > 32, ...)
@@ -358,8 +501,18 @@ class Exec:
                     raise Broken("irx(unroll): path too long in %s (loop bound not constant?)" % f.name)
             follow = False
             resuming = getattr(p, "resume", None) is not None and p.resume[0] == b
+            if b in self.rot_latch and not resuming and not (rot_start and first):
+                # back at the latch test of an un-rotated loop: the iteration is complete; the values about to be tested / merged are the back values
+                R = self.rot_latch[b]
+                for pid, (_ini, nxt) in R["pairs"].items():
+                    p.env[("back", pid)] = self.val(p, nxt)
+                self._finish(p, ("backedge", R["H"]))
+                return
+            first = False
             if resuming:
                 follow = True       # continuing in the middle of this block: no loop-head bookkeeping
+            elif b in self.rot_heads:
+                follow = True       # the head of an un-rotated loop is an ordinary block: the cut is at its guard and at its latch test
             elif self.auto and b in self.heads and pred != "fresh" and b != origin:
                 # (a generic iteration that started at this head ends when it comes back to it, decided or not)
                 follow = self._header_decided(p, b, pred, exit_only=(b == own))
@@ -465,6 +618,46 @@ class Exec:
             if forked:
                 return
             t = f.term(b)
+            if b in self.rot_guard and pred != "fresh":
+                # the guard of an un-rotated loop: the prefix ends here as if it had reached the loop head; the generic iteration starts at the
+                # latch test with symbols for the merged values (both for the head's phis and for the values the latch hands on)
+                R = self.rot_guard[b]
+                H = R["H"]
+                q = p
+                for pid, (ini, _nxt) in R["pairs"].items():
+                    q.env[("init", pid)] = self.val(p, ini)
+                self._finish(q, ("loop-entry", H))
+                if H not in started_heads or self.fresh_per_entry:
+                    started_heads.add(H)
+                    n = q.clone()
+                    n.events = []
+                    n.blocks = []
+                    if not self.fresh_per_entry:
+                        n.conds = [("ult", Lf({rs_: 1, 1: -cb_}), True) for (qs_, rs_, sa_, cb_) in q.divs.values()]
+                        n.eqs = {}
+                        n.cut = True
+                    else:
+                        n.events = [e for e in q.events if e[0] == "class"]
+                    for pid, (_ini, nxt) in R["pairs"].items():
+                        I = f.insts[pid]
+                        ty = I.get("ty") or ""
+                        if ty.endswith("*"):
+                            sym = Lf.s(("hdp", I.id))
+                        elif I.bits and (is_word(q.env.get(("init", I.id))) or (self.word_phis and self.word_phis(I, q.env.get(("init", I.id))))):
+                            sym = gf2.sym_word(("hdw", I.id), I.bits)
+                        else:
+                            sym = Lf.s(("hd", I.id))
+                        n.env[("i", I.id)] = sym
+                        if nxt[0] == "i":
+                            n.env[nxt] = sym
+                    if self.havoc == "auto":
+                        self._auto_havoc(n, R["loop"])
+                    elif self.havoc:
+                        self.havoc(self, n, H)
+                    n.start_mem = dict(n.mem)
+                    n.start_lfmem = dict(n.lfmem)
+                    work.append((R["T"], ("rot", H), n, "iter"))
+                return
             if t.op == "ret":
                 rv = self.val(p, t.ops[0]) if t.ops else None
                 self._finish(p, ("ret", rv))
@@ -532,6 +725,18 @@ class Exec:
         """would the loop header's exit test be decided by the current (concrete) values?  (exit_only: decided to leave the loop)"""
         f = self.f
         t = f.term(b)
+        L_ = self.heads.get(b)
+        if L_ is not None and (b not in L_.get("exiting", []) or b in L_.get("latches", [])) and not exit_only:
+            # a bottom-tested loop: there is no test at its head to decide.  It is followed when ScalarEvolution gives it a constant (small)
+            # trip count - a helper loop such as `posn = 4; do { p[--posn] = x; x >>= 8; } while (posn > 0)`: then every test at its bottom
+            # is decided by concrete values as the path goes round
+            btc = L_.get("btc") or {}
+            try:
+                if btc.get("k") == "c" and 0 <= int(btc["v"]) < 1024 and len(L_.get("exiting", [])) == 1:
+                    return True
+            except (TypeError, ValueError):
+                pass
+            return False
         if t.op != "br" or not t.get("cond"):
             return False
         q = p.clone()
